@@ -460,6 +460,8 @@ func heapSort(u *Universe, key string) string {
 		return "(Array Int (Array Int Int))"
 	case "BL", "IT":
 		return "(Array Int Int)"
+	case "ITV": // visited set of a map iterator: iterator id -> (key -> visited)
+		return "(Array Int (Array " + parts[1] + " Bool))"
 	case "ESC":
 		return "(Array Int Bool)"
 	case "X": // X|name|sort : plain ghost/global value
